@@ -364,7 +364,7 @@ def rule_r1(chk, prog):
               nontrivial=True)
     # children pushed in reverse, closing marker below them
     for p in paths:
-        ext = path_method_calls(p, recv='visit', attr='extend')
+        ext = path_method_calls(p, recv=unparse(loops[0].test), attr='extend')
         for (i, n, c) in ext:
             a = c.args[0]
             ok = isinstance(a, ast.Call) and call_name(a) == 'reversed'
@@ -806,6 +806,19 @@ def rule_r5(chk, prog):
             facts = set(p.facts)
             pops = [c for (i, n, c) in path_method_calls(p)
                     if c.func.attr in ('pop', 'popleft')]
+            # roles: (depth, node) = <work>.pop()
+            popv, depthv = 'expr', 'cur_depth'
+            for st_ in ast.walk(loops[0]):
+                if isinstance(st_, ast.Assign) and isinstance(
+                        st_.value, ast.Call) and isinstance(
+                            st_.value.func, ast.Attribute) and \
+                        st_.value.func.attr in ('pop', 'popleft'):
+                    t_ = st_.targets[0]
+                    if isinstance(t_, ast.Tuple) and len(t_.elts) == 2:
+                        depthv, popv = t_.elts[0].id, t_.elts[1].id
+                    elif isinstance(t_, ast.Name):
+                        popv = t_.id
+            limitp = params_of(f)[1] if len(params_of(f)) > 1 else 'max_depth'
             chk.check('C12.R5', where, f'{desc}: pop',
                       len(pops) == 1 and pops[0].func.attr == popm and
                       not pops[0].args,
@@ -821,7 +834,7 @@ def rule_r5(chk, prog):
                 ys = [y for n in p.nodes[:-1] for y in node_yields(n)]
                 chk.check('C12.R5', where, f'{desc}: one yield',
                           len(ys) == 1 and isinstance(ys[0], ast.Yield)
-                          and unparse(ys[0].value) == 'expr',
+                          and unparse(ys[0].value) == popv,
                           f'{len(ys)} yields on one iteration: a node is '
                           'visited zero times or twice', loc=m.loc(loops[0]),
                           nontrivial=True)
@@ -829,11 +842,11 @@ def rule_r5(chk, prog):
                     c = exts[0][2]
                     txt = unparse(c.args[0])
                     want_rev = (popm == 'pop')
-                    has_rev = 'reversed(expr.data)' in txt
-                    plain = 'in expr.data' in txt and not has_rev
+                    has_rev = f'reversed({popv}.data)' in txt
+                    plain = f'in {popv}.data' in txt and not has_rev
                     ok = len(exts) == 1 and leaf_f and (
                         has_rev if want_rev else plain) and \
-                        'cur_depth + 1' in txt
+                        f'{depthv} + 1' in txt
                     chk.check('C12.R5', where, c, ok,
                               'children must be pushed once, under "not '
                               'leaf", with depth+1, '
@@ -842,8 +855,8 @@ def rule_r5(chk, prog):
                               nontrivial=True)
                 else:
                     # no push: leaf, depth limit, or non-Node element
-                    ok = leaf_t or any('max_depth' in t for (t, _) in facts)\
-                        or any(t.startswith('isinstance(expr') and not pol
+                    ok = leaf_t or any(limitp in t for (t, _) in facts)\
+                        or any(t.startswith(f'isinstance({popv}') and not pol
                                for (t, pol) in facts)
                     chk.check('C12.R5', where, f'{desc}: no push', ok,
                               'children of a non-leaf within the depth limit '
